@@ -1050,7 +1050,7 @@ Lemma on_message_post3 c msg o s :
   post3 c s (out (on_message cfg c msg o s)).
 Proof.
   intros Hinv Hheld. unfold on_message, try_catch. destruct (m_type msg) as [t|].
-  - set (s0 := set_log s (LFrame c (FAck (m_id msg)) (is_clean s) :: log s)).
+  - set (s0 := set_log s (LFrame c (FAck (m_id msg)) (is_clean s) (now s) :: log s)).
     rewrite (bind_ok _ _ s tt s0) by reflexivity.
     pose proof (dispatch_post3 c t msg o s0 Hinv Hheld) as H.
     destruct (dispatch cfg c t msg o s0) as [u s1|e s1]; cbn [out] in H; [exact H|].
@@ -1255,8 +1255,8 @@ Lemma handle_claim_wp2 c a side msg o n s cs :
   DbInv (chan_w s) -> lookup_conn c (conns s) = Some cs -> m_nameplate msg = Some n ->
   c_did_claim cs = false ->
   wp (handle_claim c a side msg o)
-     (fun _ s' => exists s2 mbox b, nofr s s2 /\ claim_good a n side mbox (chan_w s2) /\
-                                    s' = set_log s2 (LFrame c (FClaimed mbox) b :: log s2))
+     (fun _ s' => exists s2 mbox b tx, nofr s s2 /\ claim_good a n side mbox (chan_w s2) /\
+                                       s' = set_log s2 (LFrame c (FClaimed mbox) b tx :: log s2))
      (fun _ s' => nofr s s') s.
 Proof.
   intros Hinv Hlk Hn Hdc. unfold handle_claim. rewrite Hn.
@@ -1264,7 +1264,7 @@ Proof.
   unfold catch_crowded_reclaimed. wp_step.
   match goal with |- wp _ _ _ ?st => set (s1 := st) end.
   eapply wp_conseq; [exact (claim_nameplate_wp2 a n side (now s1) (o_draw o) s1 Hinv)| |].
-  - intros mbox s2 [N G]. wp_step. exists s2, mbox, (is_clean s2). auto.
+  - intros mbox s2 [N G]. wp_step. exists s2, mbox, (is_clean s2), (now s2). auto.
   - intros e s2 N. destruct e; wp_step; exact N.
 Qed.
 
@@ -1349,13 +1349,13 @@ Proof using Hexp.
   pose proof (si_db s HS) as Hdb.
   unfold erroneous in Herr. rewrite Ht, Hb, Hn in Herr.
   rewrite (step_cmd cfg s c msg o TClaim cs Hlk Ht).
-  set (s1 := set_log s [LFrame c (FAck (m_id msg)) (is_clean s)]).
+  set (s1 := set_log s [LFrame c (FAck (m_id msg)) (is_clean s) (now s)]).
   assert (Hco : conn_of s1 c = cs) by (unfold conn_of; cbn; rewrite Hlk; reflexivity).
   rewrite (dispatch_bound cfg c TClaim msg o s1 a side); try discriminate;
     [|rewrite Hco; exact Hb].
   pose proof (handle_claim_wp2 c a side msg o n s1 cs Hdb Hlk Hn Herr) as W.
   apply wp_elim in W.
-  destruct W as [([] & s' & E & s2 & mbox' & b & (l & El & Fl) & G & ->)|(e & s' & E & (l & El & Fl))];
+  destruct W as [([] & s' & E & s2 & mbox' & b & tx & (l & El & Fl) & G & ->)|(e & s' & E & (l & El & Fl))];
     rewrite E.
   - cbn [o_log log set_log chan_w]. rewrite El. cbn [s1 log set_log rev].
     rewrite rev_app_distr. cbn [rev app].
@@ -1379,7 +1379,7 @@ Theorem third_side_open_refused s c cs a side msg o m :
   (2 <= List.length (mb_side_list (chan_w s) m))%nat ->
   ~ In side (firstn 2 (mb_side_list (chan_w s) m)) ->
   let '(s', ob) := step cfg s (EB (ECmd c msg o)) in
-  frames_of (o_log ob) = [(c, FAck (m_id msg)); (c, FError ErrCrowded)] /\
+  frames_of (o_log ob) = [(c, FAck (m_id msg)); (c, FError ErrCrowded msg)] /\
   subs s' = subs s /\ messages (chan_w s') = messages (chan_w s) /\
   firstn 2 (mb_side_list (chan_w s') m) = firstn 2 (mb_side_list (chan_w s) m).
 Proof using Hexp.
@@ -1415,7 +1415,7 @@ End WithConfig.
 
 (** * KF2: a concrete history *)
 
-Definition kf2_cfg : config := mkCfg true false None 5280 2400.
+Definition kf2_cfg : config := mkCfg true false None 5280 2400 (mkWelcome None None None).
 Definition kf2_oracle : oracle := mkOracle None (mkAO None []).
 Definition kf2_bind (side : string) : command :=
   mkCmd (Some TBind) None (Some "a") (Some side) None None None None None None None.
@@ -1442,7 +1442,7 @@ Example first_side_locked_out_refuted :
     0 < exp cfg /\ SInv s /\ log s = [] /\ bound_to s c a side /\
     m_type msg = Some TOpen /\ m_mailbox msg = Some m /\
     In side (firstn 2 (mb_side_list (chan_w s) m)) /\
-    In (c, FError ErrCrowded) (frames_of (o_log (snd (step cfg s (EB (ECmd c msg o)))))).
+    In (c, FError ErrCrowded msg) (frames_of (o_log (snd (step cfg s (EB (ECmd c msg o)))))).
 Proof.
   exists kf2_cfg, kf2_state, 4%nat, kf2_open, kf2_oracle, "a", "A", "m".
   split; [exact kf2_exp|].
